@@ -17,7 +17,10 @@ MANIFEST = {
                 "attached_untouched (regions are unchanged), att_store_faults, compare_no_fault, no_leak (every live allocation is the buffer "
                 "of a variable), owned_blocks_live_and_exclusive (no dangling buffer pointer, no block owned twice), buffer_correct.  The model "
                 "follows Buffer.hpp method by method and branch by branch with new/delete[]/accesses in the order of the C++ text over an "
-                "allocation ledger (block ids + live set) (constructors, destructor, attach, operator=, assign, both prepend/append overloads "
+                "allocation ledger (block ids + live set); the capacity a method gives a block it allocates is an environment parameter "
+                "(any value >= what the method needs: every theorem is for ALL capacity policies, the correspondence run feeds the model the "
+                "capacity the implementation reports after each op, so a changed growth policy does not break the tie while every branch "
+                "decision still follows the code) (constructors, destructor, attach, operator=, assign, both prepend/append overloads "
                 "incl. a.prepend(a)/a.append(a)/a=a and a.prepend(pointer into a's own bytes), resize, reserve, removeFront/Back, clear, swap, "
                 "free).  The model is tied to the current Buffer.hpp on every run: identical op lines are executed by a harness built from the "
                 "current sources (fresh memory poisoned, attached ranges and data arguments handed out as exactly sized heap blocks so that "
@@ -64,7 +67,7 @@ def reference(hist, impl_out):
         # attached memory is caller memory: its current content is read off the previous observation
         if k > 0 and k - 1 < len(impl_out) and " # " in impl_out[k - 1]:
             try:
-                regs = [unhex(x) for x in impl_out[k - 1].split(" # ")[1].split(" ")]
+                regs = [unhex(x) for x in impl_out[k - 1].split(" # ")[1].split(" @ ")[0].split(" ")]
             except ValueError:
                 pass
         t = line.split()
@@ -403,6 +406,11 @@ def branch_stats(hist, impl_out, cnt):
         # cross-check with the implementation's `size bytes owned term`
         if k_ < len(impl_out) and " # " in impl_out[k_]:
             try:
+                if " @ " in impl_out[k_]:       # capacity policy is the implementation's
+                    caps = impl_out[k_].split(" @ ")[1].split(" ")
+                    for i in range(2):
+                        if st[i][0] == "own":
+                            st[i][3] = int(caps[i])
                 vs = impl_out[k_].split(" # ")[0].split(" | ")
                 for i in range(2):
                     ta = vs[i].split(" ")
@@ -413,9 +421,100 @@ def branch_stats(hist, impl_out, cnt):
                 return
 
 
+CAP_OPS = {"new", "newcap", "newdata", "copy", "attach", "assignb", "assign", "prepend", "prependb", "prependsub",
+           "append", "appendb", "resize", "removeFront", "removeBack", "reserve", "clear", "free"}
+
+
+def with_caps(hist, impl_out):
+    """the op lines for the model: every operation on variable v carries `cap=<n>`, the capacity the
+    implementation reports for v after that operation (the model's capacity policy for that step)"""
+    out = []
+    for k, line in enumerate(hist):
+        t = line.split()
+        if t and t[0] in CAP_OPS and k < len(impl_out) and " @ " in impl_out[k]:
+            caps = impl_out[k].split(" @ ")[1].split(" ")
+            v = int(t[1])
+            if v < len(caps) and caps[v].isdigit():
+                line = f"{line} cap={caps[v]}"
+        out.append(line)
+    return out
+
+
+def run_batch(harness, driver, histories, timeout=600):
+    """C.run_batch in two phases: the implementation first, then the model on the same op lines extended by the
+    capacity the implementation chose (`with_caps`); same comparison and verdict logic (C.compare_history)"""
+    ref_eq_ = reference.eq
+    lines, _ = C.flatten(histories)
+    io, rc, err = C.run_lines(harness, lines, timeout=timeout)
+    ios = C.split_outputs(io, histories)
+    mlines, _ = C.flatten([with_caps(h, o) for h, o in zip(histories, ios)])
+    mo, _, _ = C.run_lines(driver, mlines, timeout=timeout)
+    mos = C.split_outputs(mo, histories)
+    diffs = []
+    crashed = rc != 0
+    for n, h in enumerate(histories):
+        ro = reference(h, ios[n])
+        complete = len(ios[n]) == len(h)
+        d = C.compare_history(h, ios[n], mos[n], ro, C.wildcard_eq, err if crashed else "", ref_eq_)
+        if d and d.kind == "impl-vs-model":
+            # a model disagreement (e.g. a capacity the model does not expect) must not hide a concrete failure
+            # (reference oracle, sanitizer) later in the same history
+            d2 = C.compare_history(h, ios[n], ios[n], ro, C.wildcard_eq, err if crashed else "", ref_eq_)
+            if d2:
+                d2.model = mos[n][d2.idx] if d2.idx < len(mos[n]) else None
+                d = d2
+        if d:
+            diffs.append(d)
+        if not complete:
+            break            # everything after a crash is unexplored
+    done = sum(1 for n, h in enumerate(histories) if len(ios[n]) == len(h))
+    return diffs, sum(len(x) for x in ios), done, (rc, err) if crashed else None, ios
+
+
+def shrink_diff(d, harness, driver, budget=250):
+    """C.shrink_diff over the two-phase batch"""
+    calls = [0]
+
+    def fails(h):
+        calls[0] += 1
+        if calls[0] > budget:
+            return False
+        ds, _, _, _, _ = run_batch(harness, driver, [h], 60)
+        return bool(ds) and ds[0].kind == d.kind
+
+    h = C.ddmin(d.hist[:d.idx + 1], fails)
+    ds, _, _, _, _ = run_batch(harness, driver, [h], 60)
+    return ds[0] if ds and ds[0].kind == d.kind else d
+
+
+def report_diffs(ctx, diffs, harness, driver, stream_name, max_reports=3):
+    """C.report_diffs over the two-phase batch (same classification)"""
+    if not diffs:
+        return
+    concrete = [d for d in diffs if d.kind in ("impl-vs-reference", "impl-crash", "impl-exit")]
+    corr = [d for d in diffs if d.kind == "impl-vs-model"]
+    seen = set()
+    for d in (concrete or corr)[:12]:
+        if len(seen) >= max_reports:
+            break
+        d = shrink_diff(d, harness, driver)
+        key = "\n".join(d.hist[:d.idx + 1])
+        if key in seen:
+            continue
+        seen.add(key)
+        if d.kind == "impl-vs-model":
+            ctx.broken.append(f"correspondence {stream_name}: implementation and model differ")
+            ctx.violation(f"correspondence stream '{stream_name}' no longer checks (implementation vs Lean model); "
+                          f"the independent reference found no failing input on the explored histories",
+                          d.text(), no_input=True)
+        else:
+            ctx.violation(f"{d.kind} on stream '{stream_name}'", d.text(), no_input=False,
+                          signature=f"{d.kind}:{d.hist[d.idx].split(' ')[0] if d.hist else ''}")
+
+
 def _batch(args):
     harness, driver, part = args
-    ds, nlines, done, crash, ios = C.run_batch(harness, driver, part, reference, C.wildcard_eq, 600)
+    ds, nlines, done, crash, ios = run_batch(harness, driver, part, 600)
     if crash and not ds:
         ds.append(C.Diff(part[-1] if part else [], max(0, len(part[-1]) - 1) if part else 0,
                          "impl-exit", f"exit code {crash[0]}", None, None, crash[1]))
@@ -497,7 +596,7 @@ def check(ctx):
         ctx.cov["samples"] = [" ; ".join(h) for h in (hs[-3:] + hs[len(hs) // 2: len(hs) // 2 + 2])]
         diffs = differential_mp(ctx, harness, C.driver_path(DRIVER), hs)
         ctx.log(f"{len(hs)} histories, {ctx.cov['evaluations']} op lines, {len(diffs)} disagreement(s)")
-        C.report_diffs(ctx, diffs, harness, C.driver_path(DRIVER), reference, C.wildcard_eq, "buffer-ops")
+        report_diffs(ctx, diffs, harness, C.driver_path(DRIVER), "buffer-ops")
     finally:
         try:
             harness.unlink()
@@ -509,7 +608,8 @@ def replay(ctx, path):
     h = C.parse_replay(path)
     harness = C.build_harness(ctx, "buffer", ["buffer.cpp", C.REPO / "src/Memory.cpp"])
     C.lake_build([DRIVER])
-    diffs = C.differential(ctx, harness, C.driver_path(DRIVER), [h], reference, C.wildcard_eq)
+    diffs, nlines, done, _, _ = run_batch(harness, C.driver_path(DRIVER), [h], 120)
+    ctx.cov["evaluations"] += nlines
     for d in diffs:
         print(d.text())
         ctx.violation(f"replay: {d.kind}", d.text())
